@@ -89,7 +89,7 @@ def generate_source_code(docstring, parsed):
         refs = [Ref(x.name) for x in ignored]
 
         if super_has_ignore:
-            refs.append(Ref('_super_ctx._ignored'))
+            refs.append(_SuperIgnored())
 
         rules.append(ex.Rule('_ignored', None, ex.Skip(*refs), 'ignored'))
 
@@ -256,6 +256,21 @@ def generate_source_code(docstring, parsed):
 class _Flags:
     def __init__(self, uses_context):
         self.uses_context = uses_context
+
+
+class _SuperIgnored(Ref):
+    """Refers to the "_ignored" rule of the grammar that this one extends."""
+
+    def __init__(self):
+        Ref.__init__(self, 'super._ignored')
+        self._resolved = '_super_ctx.' + ex.implementation_name('_ignored')
+
+    def always_succeeds(self):
+        # It is a Skip expression, which also succeeds when it skips nothing.
+        return True
+
+    def can_partially_succeed(self):
+        return False
 
 
 def _assign_ids(rules):
